@@ -250,6 +250,16 @@ def execute(case):
     m.response()
     y0 = [ms.copy_obj(s.state) for s in sout]
     w1, w2 = make_seeds(y0, idx)
+    # block outputs of solver-like modules: the first seed column is a combination of the columns of an input of the same
+    # shape (for a symmetric system the adjoint of a load column is already known to the solver: a seed block that mixes
+    # a known and a new column), the other columns stay generic
+    if isinstance(w1[0], np.ndarray) and w1[0].ndim == 2 and w1[0].shape[1] >= 2:
+        for s_ in sin:
+            st_ = s_.state
+            if isinstance(st_, np.ndarray) and st_.shape == w1[0].shape and not np.iscomplexobj(st_):
+                w1[0] = w1[0].copy()
+                w1[0][:, 0] = 0.7 * st_[:, 0] - 1.3 * st_[:, 1]
+                break
     cplx_out = any(np.iscomplexobj(y.data if sps.issparse(y) else y) for y in y0)
     ab = COMBOS[case.get('combo', 0) % len(COMBOS)]
     # (a, b) are real: sensitivities are real-linear in the seed (Wirtinger convention), not complex-linear
